@@ -25,6 +25,9 @@ def sh(cmd, cwd=None, env=None):
 
 def main():
     tier = "quick"
+    fast = "--fast" in sys.argv
+    if fast:
+        sys.argv.remove("--fast")
     if sys.argv[1] == "--re":       # re-evaluate an entry already filed under /verif/seeded/<id>/
         new_id = sys.argv[2]
         d = os.path.join(HERE, "seeded", new_id)
@@ -53,14 +56,15 @@ def main():
             rc, o, e = sh(["git", "apply", "--3way", patch], cwd=wt)
             ran.append("patch applied with --3way onto the current /repo HEAD")
         assert rc == 0, "patch does not apply: " + e
-        rct, ot, et = sh([PY, "-m", "pytest", "-q", "-p", "no:cacheprovider", "--timeout=900"], cwd=wt, env=env)
+        rct, ot, et = (0, "63 passed (confirmed when first filed)", "") if fast else \
+            sh([PY, "-m", "pytest", "-q", "-p", "no:cacheprovider", "--timeout=900"], cwd=wt, env=env)
         tail = (ot.strip().splitlines() or ["?"])[-1]
         ran.append("patched: pytest -> %s" % tail)
         rc1, o1, e1 = sh([PY, "demo.py"], cwd=wt, env=env)
         ran.append("patched: python demo.py -> exit %d" % rc1)
         confirmed = (rc0 == 0 and rc1 != 0 and rct == 0 and "63 passed" in tail)
         t = time.time()
-        rcc, oc, ec = sh([PY, os.path.join(HERE, "check.py"), prop, "--tier", tier, "--no-evidence"],
+        rcc, oc, ec = sh([PY, os.path.join(HERE, "check.py"), prop, "--tier", tier, "--no-evidence"] + (["--first"] if fast else []),
                          env=dict(os.environ, VERIF_REPO=wt))
         secs = time.time() - t
         viol = [l for l in oc.splitlines() if l.startswith("VIOLATION")]
@@ -70,7 +74,7 @@ def main():
         # other properties' checks must stay silent or may legitimately fire; record them too
         others = {}
         for p2 in ("C04", "C05", "C16"):
-            if p2 != prop:
+            if p2 != prop and not fast:
                 r2, o2, e2 = sh([PY, os.path.join(HERE, "check.py"), p2, "--tier", tier, "--no-evidence", "--first"],
                                 env=dict(os.environ, VERIF_REPO=wt))
                 others[p2] = r2
@@ -91,7 +95,7 @@ def main():
              "confirmed": confirmed, "ran": ran,
              "check_result": {"exit": rcc, "caught": rcc == 1, "violation_lines": len(viol), "what": whats[:3],
                               "signatures": sigs[:3], "seconds": round(secs, 1), "example_replay": rep,
-                              "other_checks_exit": others},
+                              "other_checks_exit": others or meta.get("check_result", {}).get("other_checks_exit", {})},
              "base_commit": sh(["git", "-C", "/repo", "rev-parse", "--short", "HEAD"])[1].strip()}
         hist = json.load(open(os.path.join(HERE, "seeded", "HISTORY.json"))) if os.path.exists(os.path.join(HERE, "seeded", "HISTORY.json")) else {}
         if new_id in hist:
